@@ -274,11 +274,7 @@ func (r *priRun) exec(b pBatch) *pObs {
 						doOp(&b.Lanes[i][j])
 					}
 				}
-				if len(b.Lanes) == 1 {
-					run(i)
-				} else {
-					go run(i)
-				}
+				go run(i)
 			}
 		}
 		laneStuck := heldStuck
